@@ -1,11 +1,13 @@
 import DspVerif.Gen.Cmplx
+import DspVerif.Gen.Awgn
 import DspVerif.Model.Primes
 /-!
 # Noise injection, random streams, SNR/THD analysis (core only — no Mathlib)
 
 Hand-written executable models of
 
-* `awgn` (`lib/awgn.cpp`) with `rms` of `lib/math.cpp`: the scale factors and the element-wise update,
+* `awgn` (`lib/awgn.cpp`) with `rms` of `lib/math.cpp`: the element-wise update; the scale factors are the
+  machine-generated `Gen.awgnSigmaR` / `Gen.awgnSigmaC` (`Gen/Awgn.lean`, regenerated from the source on every run),
 * the generators of `lib/random.cpp` over an ABSTRACT engine: the only state that survives a call is
   the engine (`thread_local std::mt19937 g_engine`); every distribution object is constructed inside
   the call (so `std::normal_distribution`'s cached second value lives for one call only),
@@ -48,14 +50,13 @@ def mean (l : List α) : α := sum l / Fn.ofNat l.length
 
 /-! ## `awgn` (`lib/awgn.cpp`) -/
 
-/-- `std::pow(10, ((-1) * snr / 20))` -/
-def dbFactor (snr : α) : α := Fn.pow (Fn.ofNat 10) (Fn.ofInt (-1) * snr / Fn.ofNat 20)
+/-- `stddev` of the real overload, as a function of `rms(arr)`: NOT hand-written — the formula
+`rms(arr) * std::pow(10, ((-1) * snr / 20))` regenerated from `lib/awgn.cpp`'s AST on every run -/
+abbrev sigmaRofRms (r snr : α) : α := Gen.awgnSigmaR r snr
 
-/-- `stddev` of the real overload, as a function of `rms(arr)` -/
-def sigmaRofRms (r snr : α) : α := r * dbFactor snr
-
-/-- `stddev` of the complex overload (per component), as a function of `rms(arr)` -/
-def sigmaCofRms (r snr : α) : α := Fn.sqrt (Fn.ofNat 1 / Fn.ofNat 2) * r * dbFactor snr
+/-- `stddev` of the complex overload (per component), as a function of `rms(arr)`: the generated
+`std::sqrt(0.5) * rms(arr) * std::pow(10, ((-1) * snr / 20))` of `lib/awgn.cpp` -/
+abbrev sigmaCofRms (r snr : α) : α := Gen.awgnSigmaC r snr
 
 /-- `real_t stddev = rms(arr) * std::pow(10, ((-1) * snr / 20))` -/
 def sigmaR (x : List α) (snr : α) : α := sigmaRofRms (rmsR x) snr
